@@ -3,6 +3,7 @@ package rest
 import (
 	"bytes"
 	"encoding/json"
+	"errors"
 	"fmt"
 	"io"
 	"net"
@@ -44,6 +45,8 @@ type RStep struct {
 	Body string `json:"body,omitempty"`
 	Via  string `json:"via,omitempty"` // rest | client
 	Code int    `json:"code,omitempty"`
+	// CT: Content-Type of a request with a body ("" = application/json, "none" = header absent)
+	CT string `json:"ct,omitempty"`
 }
 
 type RestCase struct {
@@ -102,9 +105,14 @@ type env struct {
 	e   *sc.Exec
 	srv *httptest.Server
 	cl  *client.PcClient
+	c   RestCase
 }
 
 func (n *env) do(method, path, body string) (int, []byte, error) {
+	return n.doCT(method, path, body, "")
+}
+
+func (n *env) doCT(method, path, body, ct string) (int, []byte, error) {
 	var rd io.Reader
 	if body != "" {
 		rd = strings.NewReader(body)
@@ -113,7 +121,11 @@ func (n *env) do(method, path, body string) (int, []byte, error) {
 	if err != nil {
 		return 0, nil, err
 	}
-	if body != "" {
+	switch {
+	case ct == "none":
+	case ct != "":
+		req.Header.Set("Content-Type", ct)
+	case body != "":
 		req.Header.Set("Content-Type", "application/json")
 	}
 	hc := *n.srv.Client()
@@ -121,6 +133,8 @@ func (n *env) do(method, path, body string) (int, []byte, error) {
 	resp, err := hc.Do(req)
 	if err != nil {
 		if strings.Contains(err.Error(), "Client.Timeout") || strings.Contains(err.Error(), "deadline exceeded") {
+			// the handler is stuck inside the runner: nothing of this case can be cleaned up
+			pbt.Abort("C19", "rest", "TestC19", n.c, fmt.Sprintf("%s %s did not return within 6 s (%v): the server stopped serving this request", method, path, err))
 			return 599, []byte("request did not return within 6 s: " + err.Error()), nil
 		}
 		return 0, nil, err
@@ -128,6 +142,20 @@ func (n *env) do(method, path, body string) (int, []byte, error) {
 	defer resp.Body.Close()
 	b, _ := io.ReadAll(resp.Body)
 	return resp.StatusCode, b, nil
+}
+
+// procNames: the sorted names the runner lists.
+func procNames(e *sc.Exec) string {
+	sts, err := e.R.GetProcessesState()
+	if err != nil {
+		return "error: " + err.Error()
+	}
+	var l []string
+	for _, s := range sts.States {
+		l = append(l, s.Name)
+	}
+	sort.Strings(l)
+	return strings.Join(l, ",")
 }
 
 func errorBody(b []byte) bool {
@@ -158,6 +186,10 @@ func checkRest(c RestCase) pbt.Verdict {
 	var v pbt.Verdict
 	s := &sc.Scenario{Procs: restProcs(c.Web), FinishRounds: 2}
 	e, err := sc.Begin(s)
+	if errors.Is(err, sc.ErrLeftover) {
+		v.Skip = true
+		return v
+	}
 	if err != nil {
 		v.Violations = append(v.Violations, "load failed: "+err.Error())
 		return v
@@ -167,7 +199,7 @@ func checkRest(c RestCase) pbt.Verdict {
 	defer srv.Close()
 	host, portS, _ := net.SplitHostPort(strings.TrimPrefix(srv.URL, "http://"))
 	port, _ := strconv.Atoi(portS)
-	n := &env{e: e, srv: srv, cl: client.NewTcpClient(host, port, 100)}
+	n := &env{e: e, srv: srv, cl: client.NewTcpClient(host, port, 100), c: c}
 	fail := func(i int, st RStep, format string, a ...any) pbt.Verdict {
 		v.Violations = append(v.Violations, fmt.Sprintf("step %d %+v: ", i, st)+fmt.Sprintf(format, a...))
 		return v
@@ -497,23 +529,40 @@ func checkRest(c RestCase) pbt.Verdict {
 			e.Do(sc.Step{Op: sc.OpSettle})
 			sawChange = true
 		case "updateproc":
-			code, body, err := n.do("POST", "/process", st.Body)
+			namesBefore := procNames(e)
+			code, body, err := n.doCT("POST", "/process", st.Body, st.CT)
 			if err != nil {
 				return fail(i, st, "request failed: %v", err)
 			}
 			if code >= 500 {
 				return fail(i, st, "server error %d: %s", code, body)
 			}
+			e.Do(sc.Step{Op: sc.OpSettle})
 			var pc types.ProcessConfig
-			if json.Unmarshal([]byte(st.Body), &pc) != nil || !known(pc.ReplicaName) && code < 400 && pc.ReplicaName != "" && false {
+			if json.Unmarshal([]byte(st.Body), &pc) != nil {
 				sawInvalid = true
 				if code < 400 {
 					return fail(i, st, "malformed body accepted with %d %s", code, body)
 				}
+			} else if pc.ReplicaName != "" && pc.Command != "" && known(pc.ReplicaName) {
+				// a well-formed update of a known process: the runner's direct call accepts it
+				// whatever Content-Type the request carries (the handler decodes the body as JSON)
+				if code != 200 {
+					return fail(i, st, "well-formed update of %s (Content-Type %q) answered %d %s", pc.ReplicaName, st.CT, code, body)
+				}
+				if info, err := e.R.GetProcessInfo(pc.ReplicaName); err != nil || info.Command != pc.Command {
+					return fail(i, st, "update of %s answered 200 but the runner's config has command %v (err %v), want %q", pc.ReplicaName, info, err, pc.Command)
+				}
+				sawChange = true
 			}
-			e.Do(sc.Step{Op: sc.OpSettle})
+			if code >= 400 {
+				if after := procNames(e); after != namesBefore {
+					return fail(i, st, "a refused update (http %d) changed the process set from %s to %s", code, namesBefore, after)
+				}
+			}
 		case "raw":
-			code, body, err := n.do(st.A, st.Name, st.Body)
+			namesBefore := procNames(e)
+			code, body, err := n.doCT(st.A, st.Name, st.Body, st.CT)
 			if err != nil {
 				continue // the Go client may refuse to send it
 			}
@@ -522,6 +571,14 @@ func checkRest(c RestCase) pbt.Verdict {
 			}
 			sawInvalid = true
 			e.Do(sc.Step{Op: sc.OpSettle})
+			// every raw request of the generator is invalid for its route (wrong method, missing
+			// parameter, malformed or ill-typed body): it changes nothing
+			if st.A == "POST" && (st.Name == "/project" || st.Name == "/process") && code < 400 {
+				return fail(i, st, "malformed body (Content-Type %q) accepted with %d %s", st.CT, code, body)
+			}
+			if after := procNames(e); after != namesBefore {
+				return fail(i, st, "an invalid request (http %d) changed the process set from %s to %s", code, namesBefore, after)
+			}
 		}
 		// the server still serves
 		if code, _, err := n.do("GET", "/live", ""); err != nil || code != 200 {
@@ -542,8 +599,9 @@ func checkRest(c RestCase) pbt.Verdict {
 	return v
 }
 
+var contentTypes = []string{"", "", "none", "text/plain", "application/x-www-form-urlencoded", "application/octet-stream", "application/json; charset=utf-8"}
 var badNames = []string{"ghost", "web", "web-9", "", " ", "a b", "%2e%2e", "../x", "名前", "x/y", "?q", "#", strings.Repeat("n", 300)}
-var nums = []string{"0", "1", "2", "3", "5", "-1", "-7", "10", "99999999999999999999", "abc", "1.5", "", " 1", "0x10", "+2"}
+var nums = []string{"0", "1", "2", "3", "5", "-1", "-7", "10", "99999999999999999999", "abc", "1.5", "", " 1", "0x10", "+2", "9223372036854775807", "9223372036854775806", "-9223372036854775808", "2147483648"}
 
 func genRest(t *rapid.T) RestCase {
 	c := RestCase{Web: pbt.Pick(t, []int{1, 2, 3})}
@@ -562,6 +620,10 @@ func genRest(t *rapid.T) RestCase {
 			return pbt.Pick(t, badNames)
 		}
 		return pbt.Pick(t, []string{"keeper", targets()})
+	}
+	// some output first, so that log windows have something to cut
+	for i, k := 0, pbt.Range(t, 0, 4); i < k; i++ {
+		c.Steps = append(c.Steps, RStep{Kind: "line", Name: pbt.Pick(t, []string{"keeper", "job", webName(0)}), Body: fmt.Sprintf("early line %d", i)})
 	}
 	n := pbt.Range(t, 5, 30)
 	for i := 0; i < n; i++ {
@@ -590,7 +652,14 @@ func genRest(t *rapid.T) RestCase {
 		case "info":
 			c.Steps = append(c.Steps, RStep{Kind: "info", Name: anyName()})
 		case "logs":
-			c.Steps = append(c.Steps, RStep{Kind: "logs", Name: anyName(), A: pbt.Pick(t, nums), B: pbt.Pick(t, nums)})
+			st := RStep{Kind: "logs", Name: anyName(), A: pbt.Pick(t, nums), B: pbt.Pick(t, nums)}
+			if pbt.Pct(t, 35) {
+				// well-formed numbers on a process that has output: the window arithmetic itself
+				st.Name = pbt.Pick(t, []string{"keeper", "job", webName(0)})
+				st.A = pbt.Pick(t, []string{"0", "1", "2", "-1", "5"})
+				st.B = pbt.Pick(t, []string{"0", "1", "3", "-1", "9223372036854775807", "9223372036854775806", "2147483648", "-9223372036854775808"})
+			}
+			c.Steps = append(c.Steps, st)
 		case "projstate":
 			c.Steps = append(c.Steps, RStep{Kind: "projstate"})
 		case "ports":
@@ -615,12 +684,13 @@ func genRest(t *rapid.T) RestCase {
 			c.Steps = append(c.Steps, RStep{Kind: "stopmany", Body: body})
 		case "updateproc":
 			body := pbt.Pick(t, []string{`{`, `[]`, `{"Name":5}`, `{"Name":"ghost","ReplicaName":"ghost"}`, `{"replicas":"x"}`, `null`, ``, `{"Name":"job","ReplicaName":"job","Command":"job v2","Replicas":1}`})
-			c.Steps = append(c.Steps, RStep{Kind: "updateproc", Body: body})
+			c.Steps = append(c.Steps, RStep{Kind: "updateproc", Body: body, CT: pbt.Pick(t, contentTypes)})
 		case "raw":
 			c.Steps = append(c.Steps, RStep{Kind: "raw", A: pbt.Pick(t, []string{"DELETE", "PUT", "GET", "POST", "PATCH"}),
 				Name: pbt.Pick(t, []string{"/process", "/process/stop/job", "/processes/stop", "/process/scale/job", "/process/scale/job/1/2", "/project/state?withMemory=maybe", "/process/logs/job/1", "/nothing", "/process/logs/ws", "/process/logs/ws?offset=x", "/project", "/project/configuration"}),
-				Body: pbt.Pick(t, []string{"", "{", `{"processes":5}`, `{"processes":{"x":{"replicas":-3}}}`})})
-			if st := c.Steps[len(c.Steps)-1]; st.A == "POST" && (st.Name == "/project" || st.Name == "/project/configuration") && (st.Body == "" || strings.HasPrefix(st.Body, `{"processes":{`)) {
+				Body: pbt.Pick(t, []string{"", "{", `{"processes":5}`, `{"processes":{"x":{"replicas":-3}}}`}), CT: pbt.Pick(t, contentTypes)})
+			if st := c.Steps[len(c.Steps)-1]; st.A == "POST" && (st.Name == "/project/configuration" || st.Name == "/project" && (st.Body == "" || strings.HasPrefix(st.Body, `{"processes":{`))) {
+				// POST /project/configuration ignores its body: it is a valid reload whatever is sent
 				c.Steps = c.Steps[:len(c.Steps)-1] // a valid (destructive) update belongs to C14, not here
 			}
 		case "exit":
